@@ -42,6 +42,9 @@ pub enum Item {
     LfnSpelling { tail: u16 },
     Label,
     Junk(Raw32),
+    /// end-of-directory marker (a slot of 32 zero bytes); whatever follows it in the directory is
+    /// "past the end marker": invisible to listing and lookup
+    End,
 }
 
 #[derive(Clone, Debug, PartialEq)]
@@ -93,9 +96,16 @@ pub fn build_items(items: &[Item], fat32: bool, lfn_cap: usize) -> (Vec<Slot>, V
     let mut exp: Vec<Expect> = Vec::new();
     let t = times0();
     let mut prev_was_junk = false;
+    let mut exp_at_end: Option<usize> = None;
     for it in items {
         let mut this_junk = false;
         match it {
+            Item::End => {
+                slots.push(Slot::Raw(vec![[0u8; 32]]));
+                if exp_at_end.is_none() {
+                    exp_at_end = Some(exp.len());
+                }
+            }
             Item::Short { name, attr, size, seed, dir } => {
                 let e = if prev_was_junk { Expect::DontCare } else { Expect::NoName };
                 if *dir {
@@ -305,6 +315,9 @@ pub fn build_items(items: &[Item], fat32: bool, lfn_cap: usize) -> (Vec<Slot>, V
         }
         prev_was_junk = this_junk;
     }
+    if let Some(n) = exp_at_end {
+        exp.truncate(n);
+    }
     (slots, exp)
 }
 
@@ -312,7 +325,9 @@ pub fn to_disk(c: &DirCase) -> (DiskSpec, Vec<Expect>, Vec<Expect>) {
     let (mut root, mut root_exp) = build_items(&c.root_items, c.geom.fat32, c.lfn_cap as usize);
     let (sub, sub_exp) = build_items(&c.sub_items, c.geom.fat32, c.lfn_cap as usize);
     // the sub-directory under test, placed in the middle of the root
-    let pos = root.len() / 2;
+    // ... but never behind an end marker
+    let first_end = root.iter().position(|s| matches!(s, Slot::Raw(v) if v.iter().any(|r| r[0] == 0)));
+    let pos = (root.len() / 2).min(first_end.unwrap_or(usize::MAX));
     // expectations: count non-raw + listed raws before pos
     let mut before = 0usize;
     {
@@ -326,7 +341,7 @@ pub fn to_disk(c: &DirCase) -> (DiskSpec, Vec<Expect>, Vec<Expect>) {
             }
             k += match s {
                 Slot::File { .. } | Slot::Dir { .. } => 1,
-                Slot::Raw(v) => v.iter().filter(|r| r[0] != 0xE5 && r[11] & 0x0F != 0x0F).count(),
+                Slot::Raw(v) => v.iter().filter(|r| r[0] != 0 && r[0] != 0xE5 && r[11] & 0x0F != 0x0F).count(),
             };
         }
         before = before.max(k);
@@ -512,6 +527,25 @@ fn lookups(
             }
         }
     }
+    // slots behind the end marker are not part of the directory
+    let mut past: Vec<(String, &'static str)> = Vec::new();
+    for raw in listing.after_end.iter() {
+        if raw[0] == 0xE5 || raw[11] & 0x3F == 0x0F {
+            continue;
+        }
+        let mut n = [0u8; 11];
+        n.copy_from_slice(&raw[0..11]);
+        let disp = names::display_name(&n);
+        if let RefName::Valid(m) = names::ref_parse(&disp) {
+            if m == n && !past.iter().any(|p| p.0 == disp) {
+                past.push((disp, "past-end-marker"));
+            }
+        }
+    }
+    past.truncate(6);
+    // they go first so that the cap on candidates does not starve them
+    past.extend(cands);
+    let mut cands = past;
     for f in ["NOSUCH.FIL", "ZZZ", ".", ".."] {
         cands.push((f.to_string(), "fresh"));
     }
@@ -538,6 +572,7 @@ fn lookups(
                 let code = match *kind {
                     "deleted-slot-bytes" => "lookup-finds-deleted",
                     "lfn-slot-bytes" => "lookup-finds-lfn-fragment",
+                    "past-end-marker" => "lookup-finds-past-end-marker",
                     _ => "lookup-finds-unlisted",
                 };
                 return Err(fail("C06", code, format!("{}: find({:?}) succeeded (slot at block {} offset {}) but the listing does not contain that name", what, name, e.entry_block.0, e.entry_offset)));
@@ -775,6 +810,7 @@ fn item_code(i: &Item) -> u8 {
         Item::Orphan { .. } => 31,
         Item::LfnSpelling { .. } => 32,
         Item::Label => 33,
+        Item::End => 35,
         Item::Junk(_) => 34,
     }
 }
@@ -789,6 +825,7 @@ fn item_name(i: &Item) -> String {
         Item::Orphan { .. } => "orphan-run".into(),
         Item::LfnSpelling { .. } => "lfn-fragment-spelling-a-short-name".into(),
         Item::Label => "label".into(),
+        Item::End => "end-marker".into(),
         Item::Junk(_) => "junk".into(),
     }
 }
@@ -836,6 +873,7 @@ pub fn item_strategy(c17_bias: bool) -> BoxedStrategy<Item> {
         1 => prop_oneof![Just(0x4242u16), Just(0x4343u16)].prop_map(|tail| Item::LfnSpelling { tail }),
         1 => Just(Item::Label),
         2 => any::<[u8; 32]>().prop_map(Item::Junk),
+        1 => Just(Item::End),
     ]
     .boxed()
 }
